@@ -24,10 +24,10 @@ func (v *vnSig) Enter(n INode) IVisitor {
 		v.out = append(v.out, 'U')
 		v.out = append(v.out, n.Op.Bytes()...)
 	case *LiteralExpr:
-		v.out = append(v.out, 'L', byte(n.TokenType))
+		v.out = append(v.out, 'L', vnLitClass(n.TokenType))
 		v.out = append(v.out, n.Data...)
 	case LiteralExpr:
-		v.out = append(v.out, 'L', byte(n.TokenType))
+		v.out = append(v.out, 'L', vnLitClass(n.TokenType))
 		v.out = append(v.out, n.Data...)
 	case *Var:
 		v.out = append(v.out, 'V')
@@ -39,6 +39,15 @@ func (v *vnSig) Enter(n INode) IVisitor {
 	}
 	v.out = append(v.out, '|')
 	return v
+}
+
+// vnLitClass: a quoted numeric property key is stored as DecimalToken by the parser while the
+// same digits re-lex as IntegerToken; both denote the same literal, so they share a class.
+func vnLitClass(tt TokenType) byte {
+	if tt == DecimalToken || tt == IntegerToken {
+		return 'N'
+	}
+	return byte(tt)
 }
 
 func (v *vnSig) Exit(n INode) {
